@@ -19,12 +19,16 @@ func verifStubProxy(p *httputil.ReverseProxy, rw http.ResponseWriter, req *http.
 	name := p.Transport.(*verifFakeRT).name
 	verifHit(name)
 	kind, status := verifNextOutcome()
-	if kind != verifOutRefused && verifInterim() {
-		// as ReverseProxy's Got1xxResponse hook does: forward the interim response, then clear the header map
-		rw.WriteHeader(http.StatusEarlyHints)
-		h := rw.Header()
-		for k := range h {
-			delete(h, k)
+	if kind != verifOutRefused {
+		for n := verifInterims(); n > 0; n-- {
+			// as ReverseProxy's Got1xxResponse hook does: copy the interim response's own
+			// headers into the map, forward it, then clear the header map
+			h := rw.Header()
+			h[verifInterimHeader] = append(h[verifInterimHeader], "</style.css>; rel=preload")
+			rw.WriteHeader(http.StatusEarlyHints)
+			for k := range h {
+				delete(h, k)
+			}
 		}
 	}
 	switch kind {
